@@ -186,9 +186,10 @@ def ix_order_of(stmts, table):
 
 # ------------------------------------------------------------------------------- one case
 
-def new_case(table, ops, recreate="always", copy_from=False, fault=None, scope="none", iso="default", tddl=None):
+def new_case(table, ops, recreate="always", copy_from=False, fault=None, scope="none", iso="default", tddl=None,
+             fkind="exception"):
     return {"table": table, "ops": ops, "recreate": recreate, "copy_from": copy_from, "fault": fault, "scope": scope,
-            "iso": iso, "tddl": tddl}
+            "iso": iso, "tddl": tddl, "fkind": fkind}
 
 
 def run_impl(case):
@@ -196,7 +197,7 @@ def run_impl(case):
     try:
         return bi.run_batch(db, case["ops"], recreate=case["recreate"], copy_from=case["copy_from"],
                             fault=case["fault"], scope=case["scope"], universe=bg.universe(case["table"], case["ops"]),
-                            tddl=case.get("tddl"))
+                            tddl=case.get("tddl"), fkind=case.get("fkind", "exception"))
     finally:
         db.close()
 
@@ -211,7 +212,7 @@ def run_two_step(case, st):
     try:
         uni = bg.universe(case["table"], case["ops"])
         r1 = bi.run_batch(db, case["ops"], recreate=case["recreate"], copy_from=case["copy_from"], fault=case["fault"],
-                          scope=case["scope"], universe=uni, tddl=case.get("tddl"))
+                          scope=case["scope"], universe=uni, tddl=case.get("tddl"), fkind=case.get("fkind", "exception"))
         orig0 = r1["before"]["orig"]
         if r1["outcome"] == "ok" or r1["fresh"]["orig"] is not None or r1["fresh"]["tmp"] is None:
             return r1, None, None
@@ -220,11 +221,12 @@ def run_two_step(case, st):
                 conn.exec_driver_sql(bi.create_table_sql(dict(orig0, rows=[])))
                 conn.commit()
         case2 = new_case(case["table"], case["ops"], case["recreate"], dict(orig0, rows=[]) if st.get("copy_from") else False,
-                         st.get("fault"), st.get("scope", "none"), case.get("iso", "default"), st.get("tddl"))
+                         st.get("fault"), st.get("scope", "none"), case.get("iso", "default"), st.get("tddl"),
+                         st.get("fkind", "exception"))
         case2["orig0"] = orig0
-        case2["two_step"] = {"step1": {k: case[k] for k in ("copy_from", "fault", "scope", "tddl")}, "step2": dict(st)}
+        case2["two_step"] = {"step1": {k: case.get(k) for k in ("copy_from", "fault", "scope", "tddl", "fkind")}, "step2": dict(st)}
         r2 = bi.run_batch(db, case2["ops"], recreate=case2["recreate"], copy_from=case2["copy_from"], fault=case2["fault"],
-                          scope=case2["scope"], universe=uni, tddl=case2.get("tddl"))
+                          scope=case2["scope"], universe=uni, tddl=case2.get("tddl"), fkind=case2.get("fkind", "exception"))
         return r1, case2, r2
     finally:
         db.close()
@@ -245,6 +247,7 @@ def model_op(case, r):
         "commitOnError": case["scope"] == "swallow",
         "mode": case.get("iso", "default"),
         "tddl": bool(case.get("tddl")),
+        "fault_kind": case.get("fkind", "exception"),
         "db": {"orig": jtable(before, ix_order_of(r["stmts"], before)) if before else None, "tmp": jtable(r["before"].get("tmp"))},
         "convs": conv_table(src, case["ops"]) if src else [],
     }
